@@ -2370,8 +2370,8 @@ impl<I: SignedInteger> Subframe<I> {
                         .iter()
                         .rev()
                         .zip(coefficients)
-                        .map(|(x, y)| (*x).into() * y)
-                        .sum::<i64>()
+                        .map(|(x, y)| (*x).into().wrapping_mul(*y))
+                        .fold(0i64, i64::wrapping_add)
                         >> qlp_shift,
                 ));
             }
